@@ -60,6 +60,8 @@ def run(bid):
                 if rc != 0:
                     res[p] = {"rc": rc, "reports": lines}
         meta["result"] = {"false_alarms": {p: r for p, r in res.items() if r["rc"] == 1}, "analysis_errors": {p: r for p, r in res.items() if r["rc"] == 2}}
+        # what the checks said the first time they saw this refactoring (before any of them was corrected) is kept
+        meta.setdefault("first_run", {"false_alarms": sorted(meta["result"]["false_alarms"]), "analysis_errors": sorted(meta["result"]["analysis_errors"])})
         json.dump(meta, open(os.path.join(d, "meta.json"), "w"), indent=1)
         return meta["result"]
     finally:
@@ -83,14 +85,15 @@ def suite(bid):
 
 
 def table():
-    print("| id | property | refactoring | false alarms | exit 2 (anchor rewritten) |\n|----|----------|-------------|--------------|---------------------------|")
+    print("| id | property | refactoring | first run: false alarm / exit 2 | now: false alarm / exit 2 |\n|----|----------|-------------|---------------------------------|---------------------------|")
     for bid in sorted(os.listdir(BASE)):
         mp = os.path.join(BASE, bid, "meta.json")
         if not os.path.exists(mp):
             continue
         m = json.load(open(mp))
         r = m.get("result", {})
-        print(f"| {bid} | {m.get('property')} | {m.get('title', '')[:90]} | {', '.join(r.get('false_alarms', {})) or '-'} | {', '.join(r.get('analysis_errors', {})) or '-'} |")
+        f0 = m.get("first_run", {})
+        print(f"| {bid} | {m.get('property')} | {m.get('title', '')[:90]} | {', '.join(f0.get('false_alarms', [])) or '-'} / {', '.join(f0.get('analysis_errors', [])) or '-'} | {', '.join(r.get('false_alarms', {})) or '-'} / {', '.join(r.get('analysis_errors', {})) or '-'} |")
 
 
 if __name__ == "__main__":
